@@ -23,6 +23,9 @@ import Chrono.Proofs.ParsedKindsL
 import Chrono.Proofs.ParsedLeapTsL
 import Chrono.Proofs.ParsedIsoSpecL
 import Chrono.Proofs.ParsedSettersL
+import Chrono.Model.DateOps
+import Chrono.Model.Format
+import Chrono.Props.GenDateOps
 
 namespace Chrono.Props.C14
 open Chrono Chrono.M Chrono.Spec Chrono.Spec.Fields Chrono.Spec.Ts Chrono.Proofs Chrono.Proofs.ParsedRes Chrono.Extracted
@@ -1012,7 +1015,11 @@ the two component resolvers (whose own kinds are `date_error_kinds` / `time_erro
   IMPOSSIBLE if either reports IMPOSSIBLE, else whatever the fall-back path yields — and that is
   NOT_ENOUGH only for a century-only ISO year group.
 In every case NOT_ENOUGH implies that the record does not hold a sufficient date and a sufficient
-time combination. -/
+time combination.
+(The last timestamp clause is stated RELATIVE TO THE MODEL function `from_timestamp_path` — it says which
+branch runs, not what the branch yields; what it yields is stated against the specification in
+`datetime_fallback_outcome`, `datetime_sound` and `datetime_complete_timestamp(_leap)`.  Which of
+IMPOSSIBLE / OUT_OF_RANGE the fall-back reports is not characterised.) -/
 theorem datetime_error_kinds (p : Parsed) (hp : InType p) (off : Int)
     (hoff : -2147483648 ≤ off ∧ off ≤ 2147483647) :
     ∃ rd, Parsed.to_naive_date p = .ok rd ∧
@@ -1563,5 +1570,150 @@ theorem no_panic (p : Parsed) (hp : InType p) (off zone : Int)
   obtain ⟨r5, h5, _⟩ := to_datetime_spec p hp
   obtain ⟨r6, h6, _⟩ := to_datetime_tz_spec p hp zone hz
   exact ⟨⟨r1, h1⟩, ⟨_, rfl⟩, ⟨r3, h3⟩, ⟨_, rfl⟩, ⟨r5, h5⟩, ⟨r6, h6⟩⟩
+
+/-! ### round 2 (audit2/C14.md): links between the callee models, exports, spec-level fall-back clause -/
+
+open Chrono.Extracted.DateOps in
+/-- MEDIUM-2: the resolver's inline model of `NaiveDate::with_ordinal` IS the model C03/C08 use (and
+`GenDateOps.gen_with_ordinal_eq` translates), for every date word and every `u32` ordinal -/
+theorem parsed_with_ordinal_eq (d : Date) (n : Nat) :
+    Parsed.date_with_ordinal d (n : Int) = d.with_ordinal n := by
+  unfold Parsed.date_with_ordinal Date.with_ordinal
+  have h1 : WO_ZERO = 0 := rfl
+  have h2 : WO_MAX = 366 := rfl
+  by_cases hc : (n : Int) = 0 ∨ (n : Int) > 366
+  · rw [if_pos hc, if_pos (show n = WO_ZERO ∨ n > WO_MAX by omega)]
+  · rw [if_neg hc, if_neg (show ¬ (n = WO_ZERO ∨ n > WO_MAX) by omega)]
+    have e : (n : Int) * 16 + ((d.flags / 8 : Nat) : Int) * 8
+        = (d.yof - d.ordinal * 16 + (n : Int) * 16) / 8 % 1024 * 8 := by
+      unfold Date.flags Date.ordinal
+      omega
+    dsimp only
+    rw [e]
+    rfl
+
+/-- end to end: the code translation of `NaiveDate::with_ordinal` (regenerated from the Rust text on
+every run) equals the function the week-date resolver of C14 calls -/
+theorem gen_with_ordinal_eq_parsed (d : Date) (n : Nat) (hd : -2147483648 ≤ d.yof ∧ d.yof ≤ 2147483647)
+    (hn : n ≤ 4294967295) :
+    Gen.naive_date.NaiveDate.Datelike.with_ordinal d.yof n
+      = Proofs.GenL.rmap (Option.map Date.yof) (Parsed.date_with_ordinal d (n : Int)) := by
+  rw [parsed_with_ordinal_eq]; exact GenDateOps.gen_with_ordinal_eq d n hd hn
+
+/-- MEDIUM-2: the two models of `NaiveDate::weeks_from` (C14's verifier, C12's formatter) are one function -/
+theorem parsed_weeks_from_eq : Parsed.weeks_from = Format.weeks_from := rfl
+
+open Chrono.Extracted.DateOps in
+/-- MEDIUM-2: the resolver's `quarter_of` is `Datelike::quarter` as modelled for C08 from the EXTRACTED
+constants `Q_SUB / Q_DIV / Q_ADD` (a month is at least 1, so the `u32` subtraction cannot underflow) -/
+theorem parsed_quarter_of_eq (d : Date) (m : Nat) (hm : d.month = .ok m) (h1 : 1 ≤ m) :
+    d.quarter = .ok ((m - Q_SUB) / Q_DIV + Q_ADD) ∧
+    Parsed.quarter_of m = (((m - Q_SUB) / Q_DIV + Q_ADD : Nat) : Int) ∧
+    Parsed.quarter_of m = Format.quarter m := by
+  have a : Q_SUB = 1 := rfl
+  have b : Q_DIV = 3 := rfl
+  have c : Q_ADD = 1 := rfl
+  refine ⟨?_, ?_, rfl⟩
+  · unfold Date.quarter
+    rw [hm]
+    dsimp only
+    rw [if_neg (by omega)]
+  · unfold Parsed.quarter_of
+    rw [a, b, c]
+    omega
+
+/-- non-vacuity: 2024-02-29 moved to ordinal 366 / 367 / 0; its quarter -/
+example :
+    Parsed.date_with_ordinal (dateOfYo 2024 60) 366 = .ok (some (dateOfYo 2024 366)) ∧
+    Parsed.date_with_ordinal (dateOfYo 2023 60) 366 = .ok none ∧
+    Parsed.date_with_ordinal (dateOfYo 2024 60) 0 = .ok none ∧
+    (dateOfYo 2024 60).month = .ok 2 ∧ (dateOfYo 2024 60).quarter = .ok 1 ∧ Parsed.quarter_of 2 = 1 := by
+  decide +kernel
+
+/-- LOW-4: the date resolver on fields DERIVED from one existing day with determinate year groups —
+exactly that day when the record holds a documented sufficient combination, NOT_ENOUGH otherwise;
+never IMPOSSIBLE / OUT_OF_RANGE -/
+theorem date_derived_outcome (p : Parsed) (hp : InType p) (Y : Int) (o : Nat) (hvd : VD Y o)
+    (hag : DateAgrees p Y o)
+    (hdY : GroupDeterminate p.year p.year_div_100 p.year_mod_100 Y)
+    (hdI : ∀ w, (dateOfYo Y o).iso_week = .ok w →
+      GroupDeterminate p.isoyear p.isoyear_div_100 p.isoyear_mod_100 (IsoWeek.year w)) :
+    (Parsed.to_naive_date p = .ok (.ok (dateOfYo Y o)) ∧ DateSufficient p) ∨
+    (Parsed.to_naive_date p = .ok (.error .notEnough) ∧ ¬ DateSufficient p) :=
+  date_of_derived p hp Y o hvd hag hdY hdI
+
+/-- LOW-4: the time resolver on fields DERIVED from one constructible time of day: exactly that time
+when hour halves and minute are present (and the second wherever the nanosecond is), NOT_ENOUGH
+otherwise; never OUT_OF_RANGE -/
+theorem time_derived_outcome (p : Parsed) (t : Time) (ht : TStrict t) (ha : TimeAgrees p t) :
+    (Parsed.to_naive_time p = .ok t ∧ TimeSufficient p) ∨
+    (Parsed.to_naive_time p = .error .notEnough ∧ ¬ TimeSufficient p) := by
+  by_cases hs : TimeSufficient p
+  · exact Or.inl ⟨time_complete' p t ht ha hs, hs⟩
+  · right
+    refine ⟨?_, hs⟩
+    cases hres : Parsed.to_naive_time p with
+    | ok t' => exact absurd (time_sound' p t' hres).2.2.1 hs
+    | error e =>
+      rcases time_err' p e hres with ⟨h1, _⟩ | ⟨_, h2⟩
+      · rw [h1]
+      · exact absurd (timeInRange_of_supplied' p t ht.1
+          ⟨ha.1, ha.2.1, ha.2.2.1, ha.2.2.2.1.1, ha.2.2.2.2.1⟩) h2
+
+/-- LOW-5: the timestamp branches of `datetime_error_kinds` against the SPECIFICATION (that theorem's
+third timestamp clause ends in the model function `from_timestamp_path`).  EVERY record with a
+timestamp field — in particular one whose date and time fields do not both resolve and none of whose
+component resolvers reports OUT_OF_RANGE / IMPOSSIBLE, i.e. the fall-back: no panic; a value is an
+existing day and a constructible time that agree with every supplied date and time field and whose
+timestamp at `off` is the supplied one (one less allowed for a leap second); an error is one of the
+three kinds, and NOT_ENOUGH only for a century-only ISO year group.  WHICH of IMPOSSIBLE /
+OUT_OF_RANGE the fall-back reports is not characterised (the property statement does not ask). -/
+theorem datetime_fallback_outcome (p : Parsed) (hp : InType p) (off : Int)
+    (hoff : -2147483648 ≤ off ∧ off ≤ 2147483647) (ts : Int) (hts : p.timestamp = some ts) :
+    ∃ r, Parsed.to_naive_datetime_with_offset p off = .ok r ∧
+      (∀ dt, r = .ok dt → ∃ Y o, VD Y o ∧ dt.date = dateOfYo Y o ∧ DateAgrees p Y o ∧
+        TStrict dt.time ∧ TimeAgreesSupplied p dt.time ∧ timestampIs (some ts) dt off) ∧
+      (∀ e, r = .error e → (e = .notEnough ∨ e = .impossible ∨ e = .outOfRange) ∧
+        (e = .notEnough → ¬ GroupUsable p.isoyear p.isoyear_div_100 p.isoyear_mod_100)) := by
+  obtain ⟨r, hr, he, hv⟩ := dt_main p hp off hoff
+  refine ⟨r, hr, fun dt hdt => ?_, fun e hre => ⟨he e hre, fun hne => ?_⟩⟩
+  · have := hv dt hdt
+    rw [hts] at this
+    exact this
+  · subst hne
+    subst hre
+    exact (dt_not_enough_only p hp off hoff hr).2 (by rw [hts]; exact fun h => by cases h)
+
+/-- non-vacuity of `datetime_fallback_outcome`: a lone timestamp resolves; with a century-only ISO group
+it is NOT_ENOUGH; with a contradicting minute (only hour half missing, so the fall-back runs) IMPOSSIBLE -/
+example :
+    Parsed.to_naive_datetime_with_offset { timestamp := some 86399 } 3600
+      = .ok (.ok ⟨dateOfYo 1970 2, ⟨3599, 0⟩⟩) ∧
+    Parsed.to_naive_datetime_with_offset { timestamp := some 86399, isoyear_div_100 := some 19 } 0
+      = .ok (.error .notEnough) ∧
+    Parsed.to_naive_datetime_with_offset { timestamp := some 86399, minute := some 58 } 0
+      = .ok (.error .impossible) := by
+  decide +kernel
+
+/-- LOW-7 / audit-2 section 2: a DIRECT instance of `tz_gen_complete_fields` for a zone that is neither
+fixed nor a step zone (it answers every wall clock with the same two candidates and every instant with
++02:00): the hypotheses that are computations exhibited, the generic resolver evaluated.  `z1` is the
+only candidate consistent with the offset field. -/
+example :
+    let p : Parsed := {
+      year := some 2021, month := some 10, day := some 31, hour_div_12 := some 0,
+      hour_mod_12 := some 2, minute := some 30, offset := some 3600 }
+    let l : NaiveDT := ⟨dateOfYo 2021 304, ⟨9000, 0⟩⟩
+    let z0 : Zoned := ⟨⟨dateOfYo 2021 304, ⟨1800, 0⟩⟩, 7200⟩
+    let z1 : Zoned := ⟨⟨dateOfYo 2021 304, ⟨5400, 0⟩⟩, 3600⟩
+    let ofu : NaiveDT → Res Int := fun _ => .ok 7200
+    let fl : NaiveDT → Res (Mapped Zoned) := fun _ => .ok (.ambiguous z0 z1)
+    ZInv z0 ∧ ZInv z1 ∧ VD 2021 304 ∧ TStrict ⟨9000, 0⟩ ∧ Zoned.naive_local z1 = .ok l ∧
+    UsesCalendar p ∧ TimeSufficient p ∧ z1 ∈ (Mapped.ambiguous z0 z1).toList ∧ z0 ≠ z1 ∧
+    consistentB p z1 = true ∧ consistentB p z0 = false ∧
+    Parsed.to_datetime_with_timezone_gen p ofu fl = .ok (.ok z1) := by
+  refine ⟨by decide +kernel, by decide +kernel, by unfold VD; decide, by decide, by decide +kernel,
+    ⟨Or.inl (by simp), Or.inl ⟨by simp, by simp⟩⟩, ⟨by simp, by simp, by simp, fun h => by simp at h⟩,
+    by simp [Mapped.toList], by decide, by decide +kernel, by decide +kernel, by decide +kernel⟩
 
 end Chrono.Props.C14
